@@ -30,6 +30,25 @@ CHECKS = {
    ref="§6 C12"),
 }
 
+CHECKS["C17"] = dict(
+   technique="contract-based deductive verification: VCs from the ast of cons2prim/prim2cons and every registered variable "
+             "function, reached through model.nameddata; z3",
+   text="Proof for all admissible states and gamma: both round trips are the identity for each of the six models, and every "
+        "name registered in a model's variable dictionary (enumerated from the decorators) equals its definition from the "
+        "statement at a generic cell of an array of symbolic length, with the shape clause 'one value per cell for scalar "
+        "quantities' (1-D and 2-D).",
+   note=TB + "; sqrt/rpow/log uninterpreted with instantiated axioms; known finding K1 (signed 1-D mach) listed in "
+        "known_findings.json.",
+   ref="§6 C17")
+CHECKS["C18"] = dict(
+   technique="contract-based deductive verification: VCs from the ast of every model.timestep and of the two calc_timestep "
+             "methods; spectral radius derived independently (sympy eigenvalue lemma + z3)",
+   text="Proof for all admissible states, cell sizes, CFL>0, symbolic number of cells: timestep[i]*rho(A_i) = CFL*size_i, "
+        "positive, of the right shape and local (reads cell i only); fvm1d passes xf[i+1]-xf[i], fvm2dcart passes "
+        "dx*dy/(dx+dy). The driver's use of the minimum / local array is decided with C07.",
+   note=TB + "; sympy trusted for the characteristic-polynomial root check; Burgers requires u!=0 (finiteness precondition).",
+   ref="§6 C18")
+
 NA = {
  "C04": "convergence of a solve at the design order under mesh refinement is a limit statement over a family of meshes "
         "(and an empirical one for Riemann problems; the reference solutions wrap the external aerokit): no pre/postcondition "
